@@ -2,11 +2,13 @@
 //
 // Bounded-exhaustive over data sets x log-weights x configured bounds (closed-form and
 // numeric estimators) and over data sets x initial-parameter lattices (EM trajectories of
-// mixtures, HMMs and a mixture nested in an HMM).  See closed.go, numeric.go, em.go.
+// mixtures, HMMs and a mixture nested in an HMM).  See closed.go, numeric.go, em.go,
+// discrete.go, emopts.go and pool.go (thread pools with a forced job -> thread assignment).
 package main
 
 import (
 	"encoding/json"
+	"os"
 
 	"verif/mc/vf"
 )
@@ -28,9 +30,13 @@ func main() {
 			"vectorEstimator.NewHmmSummarizedDataSet (no estimator of the library constructs it) through generic.BaumWelchAlgorithm with a core repeating HmmEstimator's steps; same EM oracle, plus the differential against the standard estimator on the expanded data, non-trivial when the data contain a repeated observation. " +
 			"Shift invariance of log-weights: every closed-form family x every data set of size 1..3 x every weight vector in {0,log 1/2,log 1/4}^n x Estimate and batch interface x common offset c in {-745,-700,-300,+300,+700}: the estimate equals the one for c=0 within 1e-9 (data without an admissible maximiser excluded). " +
 			"matrixEstimator: HmmEstimator (m=2; ScalarId emissions of normals / normal x poisson, and NESTED vector-mixture emissions) on all sequences of <=4 (thorough 5) points of a 3-point alphabet in R^2 and pairs of short sequences x transition lattice x emission lattice; MixtureEstimator over VectorId components (closed-form and nested rows) on all multisets of <=3 2x2 observations; nested scalar-in-scalar and vector-in-vector mixtures. " +
-			"Option lattice: OptimizeEmissions x OptimizeTransitions for the vector HMM (estimator fields), the direct generic.BaumWelchAlgorithm route (arguments) and the matrix HMM; OptimizeEmissions x OptimizeWeights for scalar, vector and matrix mixtures; same EM oracle plus: the block that is not optimised is bitwise the initial one at every hook call",
+			"Option lattice: OptimizeEmissions x OptimizeTransitions for the vector HMM (estimator fields), the direct generic.BaumWelchAlgorithm route (arguments) and the matrix HMM; OptimizeEmissions x OptimizeWeights for scalar, vector and matrix mixtures; same EM oracle plus: the block that is not optimised is bitwise the initial one at every hook call. " +
+			"Observations of different lengths: vectorEstimator.ScalarIid (dimension -1) on every data set of 1..4 observations, each the prefix of length 1..3 of one of 2 (thorough 3) template vectors (all length profiles: equal, increasing, decreasing, mixed) x {nil} u {0,log 1/2,log 1/4}^n x sigmaMin, exact weighted MLE + perturbation oracle; EM of vector mixtures with ScalarIid(normal) / ScalarIid(poisson) components on every SEQUENCE of <=3 (thorough 4) such observations x the initial lattice. " +
+			"Mixture weights: at every step of every mixture trajectory with OptimizeWeights the new weights equal the mean responsibilities under the previous model (harness-computed) within 1e-9. " +
+			"Thread pools of T=2,3 threads with the job->thread assignment fixed by the harness through the real pool's own rules (pool.go; no timing): (i) the estimator runs as thread c=0..T-1 and every job of every phase is executed by thread c (for c!=0 thread 0 never executes anything): every closed-form family (Estimate and batch) x data sets of size 1..3 x all weight vectors, and EM of scalar mixtures (normal, poisson, categorical, nested), discrete mixtures on summarised data, a vector mixture, vector HMMs (categorical, nested mixtures) and the matrix HMM over reduced initial lattices; (ii) scalar mixtures (normal, categorical; all multisets of 1..4 observations) and vector HMMs (data sets of 2, thorough 3, short sequences) with EVERY assignment of the E-step jobs (range chunks resp. one job per sequence) to the T threads, the same in every E-step, and - while T^jobs <= 9 (thorough 27) - every alternating pair of two different assignments (a thread that took part in one E-step and not in the next), 6 EM iterations, calling thread 0 (thorough also T-1); same EM oracle and weight oracle",
 		Assume: []string{
-			"thread pool of size one (schedule independence is C17)",
+			"thread pools: the sequential pool everywhere; pools of 2 and 3 threads only with a job->thread assignment chosen by the harness (all jobs on the calling thread, or every assignment of the E-step jobs). Each such execution is one the real pool can produce; interleavings inside jobs, data races and agreement between schedules are C17. The E-step assignment is forced through a core that repeats the estimator's Swap/Step/Emissions over a data set wrapper with a gate at a job's first data access (as the summarised-HMM route does)",
+			"exact M-step of the mixture weights = mean responsibilities under the previous model (the maximiser of the expected complete-data log-likelihood); demanded only when the weights are optimised and only for the outermost mixture",
 			"EM monotonicity is demanded for component families whose M-step is the exact maximiser of the expected complete-data log-likelihood over the configured box: normal with sigma>=sigmaMin (clamping is the exact box-constrained maximiser, and every initial sigma of the lattice lies in the box), poisson, categorical, products of these, and one EM step of an inner mixture (generalised EM); numeric M-steps are only checked for stationarity of the stand-alone numeric estimator",
 			"initial EM parameters are interior (positive weights, positive emission probabilities); starts under which the data has probability zero are only required to fail loudly",
 			"estimators may fail loudly (error) when the likelihood has no maximiser at admissible parameters (all-zero Poisson data, singular sample covariance); this is counted, not reported",
@@ -46,9 +52,17 @@ func main() {
 			if thorough {
 				n = 5
 			}
-			runClosed(c, n)
-			runNumericSweep(c, n)
-			runEM(c, thorough)
+			// C16_ONLY (development aid, never set by ./check): "closed" | "numeric" | a substring of EM labels
+			only := os.Getenv("C16_ONLY")
+			if only == "" || only == "closed" {
+				runClosed(c, n)
+			}
+			if only == "" || only == "numeric" {
+				runNumericSweep(c, n)
+			}
+			if only != "closed" && only != "numeric" {
+				runEM(c, thorough)
+			}
 		},
 		Replay: func(c *vf.Ctx, raw json.RawMessage) {
 			var ac AnyCase
